@@ -155,3 +155,9 @@ Proof. repeat split. Qed.
 Theorem C08_source_default_boxed :
   thin_of "GenericArray<T,N>" "default_boxed" = Some "Box :: < GenericArray < T , N > > :: generate (| _ | T :: default ())".
 Proof. reflexivity. Qed.
+
+(* the by-reference sequences generate through the owned type (regenerated) *)
+Theorem C08_source_ref_generate :
+  thin_of "GenericSequence<T> for &S" "generate" = Some "S :: generate (f)" /\
+  thin_of "GenericSequence<T> for &mutS" "generate" = Some "S :: generate (f)".
+Proof. split; reflexivity. Qed.
